@@ -182,7 +182,7 @@ func (d Date) MarshalBinary() ([]byte, error) {
 }
 
 // UnmarshalBinary sets date from passed data.
-// It can return wrapped ErrUnsupportedVersion or ErrInvalidLength.
+// It can return wrapped ErrUnsupportedVersion, ErrInvalidLength or ErrInvalidMonthOrDay.
 func (d *Date) UnmarshalBinary(data []byte) error {
 	l := len(data)
 	if l == 0 {
@@ -194,7 +194,11 @@ func (d *Date) UnmarshalBinary(data []byte) error {
 	if l != 7 { // version(1)+year(4)+month(1)+day(1)
 		return fmt.Errorf("date.Date.UnmarshalBinary: %w: expected 7 instead of %d", ErrInvalidLength, l)
 	}
-	d.year = (int32(data[1])<<24 | int32(data[2])<<16 | int32(data[3])<<8 | int32(data[4])) - 1
+	year := int32(data[1])<<24 | int32(data[2])<<16 | int32(data[3])<<8 | int32(data[4])
+	if data[5] < 1 || data[5] > 12 || data[6] < 1 || int(data[6]) > daysIn(int(year), Month(data[5])) {
+		return fmt.Errorf("date.Date.UnmarshalBinary: %w: month %d, day %d", ErrInvalidMonthOrDay, data[5], data[6])
+	}
+	d.year = year - 1
 	d.month = data[5] - 1
 	d.day = data[6] - 1
 	return nil
@@ -256,6 +260,11 @@ func (d Date) format(f Format) []byte {
 		b, _ = DefaultFormatter(nil, d, f)
 	}
 	return b
+}
+
+// daysIn returns count of days in passed month of passed year.
+func daysIn(year int, month Month) int {
+	return time.Date(year, month+1, 0, 0, 0, 0, 0, time.UTC).Day()
 }
 
 func formatByVerb(verb rune) Format {
